@@ -106,17 +106,50 @@ Record switch_model := {
   sm_routes : list (string * route); sm_refs : list env_ref;
   sm_paths : list (site * bool) }.                   (* behind the guard the decorator installs its wrapper(s) *)
 
-Inductive dobj := Identity (x : nat) | Wrapped (d : dkind) (x : nat).
+(* ---- objects ------------------------------------------------------------------------------
+   Every function / class that exists is a cell of the heap, addressed by its position; cells are only ever added.
+   c_layers: the checking wrappers that were installed around the plain callable (functions) or around the methods
+   the class defines itself (classes), outermost first.  c_base: for a class created as a subclass of an earlier object,
+   the address of that class (methods the subclass does not define are looked up there WHEN THEY ARE CALLED).
+   pedantic / pedantic_require_docstring decorate functions and return a NEW function (the given one is not touched);
+   the five class decorators modify the given class IN PLACE and return it.                                            *)
+Inductive family := FFn | FCls.
+Definition fam (d : dkind) : family :=
+  match d with DPedantic | DPedanticReqDoc => FFn | _ => FCls end.
+Definition family_eqb (a b : family) : bool :=
+  match a, b with FFn, FFn | FCls, FCls => true | _, _ => false end.
+
+Record cell := { c_layers : list dkind; c_base : option nat }.
+(* a decorated object: what was handed to the decorator and what the decorator returned *)
+Record dobj := { o_fam : family; o_given : nat; o_res : nat }.
 (* decos: decorator objects that were created (for_all_methods(inner), pedantic(), pedantic_require_docstring(), or a
    reference to one of the class decorators) and not yet necessarily applied, with the value of the variable at creation *)
-Record state := { env : envv; objs : list dobj; decos : list (dkind * envv) }.
+Record state := { env : envv; heap : list cell; objs : list dobj; decos : list (dkind * envv) }.
 
-Inductive op := OSetenv (s : string) | OUnsetenv | OEnable | ODisable | ODecorate (d : dkind) (x : nat) | OCall (i : nat)
+(* where the decorator of a (re-)decoration comes from: written directly above / around the target, or a kept object *)
+Inductive dsrc := Direct (d : dkind) | Kept (k : nat).
+
+Inductive op := OSetenv (s : string) | OUnsetenv | OEnable | ODisable
+              | ODecorate (d : dkind)          (* decorate a FRESH function / class *)
+              | OCall (i : nat)
               | OCreate (d : dkind)            (* obtain a decorator object, keep it *)
-              | OApply (k : nat) (x : nat).    (* apply the k-th kept decorator object to a fresh target x *)
+              | OApply (k : nat)               (* apply the k-th kept decorator object to a fresh target *)
+              | ORedecorate (src : dsrc) (i : nat) (again : bool)
+                (* decorate an object that went through a decorator earlier in the history: again = false the object that
+                   was GIVEN to the decorator when object #i was made, again = true object #i itself (the result) *)
+              | OSubDecorate (src : dsrc) (i : nat).
+                (* define a fresh subclass of object #i (a class) and decorate the subclass *)
 
 Inductive behaviour := Plain | Checked | CallRaises.
-Inductive obs := ONone | ODeco (identity : bool) | ODecoRaise | OCalled (b : behaviour).
+(* OUnspec is never produced by the model: the specification uses it where the statement demands nothing *)
+Inductive obs := ONone | ODeco (identity : bool) | ODecoRaise | OCalled (b : behaviour) | OUnspec.
+
+Fixpoint set_nth {A} (l : list A) (n : nat) (x : A) : list A :=
+  match l, n with
+  | [], _ => []
+  | _ :: l', O => x :: l'
+  | y :: l', S n' => y :: set_nth l' n' x
+  end.
 
 Section Model.
   Variable M : switch_model.
@@ -157,28 +190,75 @@ Section Model.
   Definition wraps (d : dkind) : bool :=
     forallb (fun s => negb (site_relevant d s) || site_wraps s) [SitePedantic; SiteForAll].
 
-  Definition call_behaviour (o : dobj) (e : envv) : behaviour :=
-    match o with
-    | Identity _ => Plain
-    | Wrapped d _ =>
-      if negb (wraps d) then Plain
-      else if call_reads d then
-        match is_enabled e with Ok true => Checked | Ok false => Plain | Raise _ => CallRaises end
-      else Checked
+  (* one wrapper installed by decorator d, called while the variable is e *)
+  Definition layer_behaviour (d : dkind) (e : envv) : behaviour :=
+    if negb (wraps d) then Plain
+    else if call_reads d then
+      match is_enabled e with Ok true => Checked | Ok false => Plain | Raise _ => CallRaises end
+    else Checked.
+
+  (* the outermost wrapper runs first; a wrapper that does nothing hands over to the next one *)
+  Fixpoint layers_behaviour (ws : list dkind) (e : envv) : behaviour :=
+    match ws with
+    | [] => Plain
+    | d :: ws' => match layer_behaviour d e with Plain => layers_behaviour ws' e | b => b end
     end.
 
-  Definition with_env (s : state) (e : envv) : state := {| env := e; objs := objs s; decos := decos s |}.
-  Definition add_obj (s : state) (o : dobj) : state := {| env := env s; objs := objs s ++ [o]; decos := decos s |}.
+  Definition layers_at (hp : list cell) (a : nat) : list dkind :=
+    match nth_error hp a with Some c => c_layers c | None => [] end.
 
-  (* apply decorator d to target x; e is the value of the variable the guard sees *)
-  Definition decorate (s : state) (d : dkind) (x : nat) (e : envv) : state * obs :=
+  (* calling the function at address a / a method the class at address a defines itself *)
+  Definition cell_behaviour (s : state) (a : nat) (e : envv) : behaviour := layers_behaviour (layers_at (heap s) a) e.
+  (* calling, on an instance of the class at address a, a method it inherits: found in the base class at call time *)
+  Definition inherited_behaviour (s : state) (a : nat) (e : envv) : option behaviour :=
+    match nth_error (heap s) a with
+    | Some {| c_base := Some b |} => Some (cell_behaviour s b e)
+    | _ => None
+    end.
+  Definition call_behaviour (s : state) (o : dobj) (e : envv) : behaviour := cell_behaviour s (o_res o) e.
+
+  Definition with_env (s : state) (e : envv) : state := {| env := e; heap := heap s; objs := objs s; decos := decos s |}.
+  Definition add_obj (s : state) (o : dobj) : state :=
+    {| env := env s; heap := heap s; objs := objs s ++ [o]; decos := decos s |}.
+  Definition alloc (s : state) (c : cell) : state :=
+    {| env := env s; heap := heap s ++ [c]; objs := objs s; decos := decos s |}.
+  Definition base_at (hp : list cell) (a : nat) : option nat :=
+    match nth_error hp a with Some c => c_base c | None => None end.
+
+  (* behind the guard: the decorator installs its wrapper - around a new function, or into the given class *)
+  Definition wrap (s : state) (d : dkind) (a : nat) : state * obs :=
+    match fam d with
+    | FFn => (add_obj (alloc s {| c_layers := d :: layers_at (heap s) a; c_base := None |})
+                      {| o_fam := FFn; o_given := a; o_res := List.length (heap s) |}, ODeco false)
+    | FCls => (add_obj {| env := env s;
+                          heap := set_nth (heap s) a {| c_layers := d :: layers_at (heap s) a; c_base := base_at (heap s) a |};
+                          objs := objs s; decos := decos s |}
+                       {| o_fam := FCls; o_given := a; o_res := a |}, ODeco false)
+    end.
+
+  (* apply decorator d to the object at address a; e is the value of the variable the guard sees *)
+  Definition decorate_at (s : state) (d : dkind) (a : nat) (e : envv) : state * obs :=
     if honours d then
       match is_enabled e with
-      | Ok true => (add_obj s (Wrapped d x), ODeco false)
-      | Ok false => (add_obj s (Identity x), ODeco true)
+      | Ok true => wrap s d a
+      | Ok false => (add_obj s {| o_fam := fam d; o_given := a; o_res := a |}, ODeco true)
       | Raise _ => (s, ODecoRaise)
       end
-    else (add_obj s (Wrapped d x), ODeco false).
+    else wrap s d a.
+
+  (* the decorator and the value of the variable its guard will see *)
+  Definition resolve (s : state) (src : dsrc) : option (dkind * envv) :=
+    match src with
+    | Direct d => Some (d, env s)
+    | Kept k => match nth_error (decos s) k with
+                | Some (d, e0) => Some (d, if create_reads d then e0 else env s)
+                | None => None
+                end
+    end.
+
+  (* a fresh target: a new plain function / class (with base class b) *)
+  Definition decorate_fresh (s : state) (d : dkind) (b : option nat) (e : envv) : state * obs :=
+    decorate_at (alloc s {| c_layers := []; c_base := b |}) d (List.length (heap s)) e.
 
   Definition step (s : state) (o : op) : state * obs :=
     match o with
@@ -186,17 +266,32 @@ Section Model.
     | OUnsetenv => (with_env s Unset, ONone)
     | OEnable => (with_env s (run_assign (sm_enable M) (env s)), ONone)
     | ODisable => (with_env s (run_assign (sm_disable M) (env s)), ONone)
-    | ODecorate d x => decorate s d x (env s)
+    | ODecorate d => decorate_fresh s d None (env s)
     | OCall i =>
       match nth_error (objs s) i with
-      | Some o' => (s, OCalled (call_behaviour o' (env s)))
+      | Some o' => (s, OCalled (call_behaviour s o' (env s)))
       | None => (s, ONone)
       end
-    | OCreate d => ({| env := env s; objs := objs s; decos := decos s ++ [(d, env s)] |}, ONone)
-    | OApply k x =>
-      match nth_error (decos s) k with
-      | Some (d, e0) => decorate s d x (if create_reads d then e0 else env s)
+    | OCreate d => ({| env := env s; heap := heap s; objs := objs s; decos := decos s ++ [(d, env s)] |}, ONone)
+    | OApply k =>
+      match resolve s (Kept k) with
+      | Some (d, e) => decorate_fresh s d None e
       | None => (s, ONone)
+      end
+    | ORedecorate src i again =>
+      match nth_error (objs s) i, resolve s src with
+      | Some o', Some (d, e) =>
+        if family_eqb (fam d) (o_fam o') then decorate_at s d (if again then o_res o' else o_given o') e else (s, ONone)
+      | _, _ => (s, ONone)
+      end
+    | OSubDecorate src i =>
+      match nth_error (objs s) i, resolve s src with
+      | Some o', Some (d, e) =>
+        match o_fam o', fam d with
+        | FCls, FCls => decorate_fresh s d (Some (o_res o')) e
+        | _, _ => (s, ONone)
+        end
+      | _, _ => (s, ONone)
       end
     end.
 
@@ -206,4 +301,3 @@ Section Model.
     | o :: h' => let (s1, b) := step s o in let (s2, bs) := run_ops s1 h' in (s2, b :: bs)
     end.
 End Model.
-
